@@ -59,7 +59,7 @@ def row_tensor_cases(draw, degenerate_bias=False, qtypes=("qint2", "qint4"), min
         "seed": draw(st.integers(0, 2**20)),
         # memory layout of the source (values unchanged): weights reach quantize_weight transposed (Conv1D-style
         # checkpoints), permuted, channels_last, sliced out of fused matrices
-        "layout": list(draw(st.tuples(st.sampled_from(["contig", "contig", "contig", "perm", "slice", "offset"]), st.integers(0, 23)))),
+        "mem": list(draw(st.tuples(st.sampled_from(["contig", "contig", "contig", "perm", "slice", "offset"]), st.integers(0, 23)))),
     }
 
 
@@ -93,7 +93,7 @@ def build(case):
         flat[order[pos : pos + n]] = gen.make_row(name, n, dtype, g, mag)
         pos += n
     x = gen.clamp_finite(flat.reshape(shape), dtype)
-    layout = case.get("layout")
+    layout = case.get("mem")
     if layout and layout[0] != "contig":
         x = gen.apply_layout(x, tuple(layout))
     return x, gid, ng, names
